@@ -524,6 +524,17 @@ func configure() *Config {
 		}
 
 		legacyFlagSet.Parse(args)
+
+		// Resolve the listen address as DaemonFlagSet.Parse does for the
+		// new flags: -P / address, else the port setting of the
+		// configuration file, else the platform default.
+		if cfg.BindAddr == "" {
+			if cfg.BindPort != "" {
+				cfg.BindAddr = cfg.BindPort
+			} else {
+				cfg.BindAddr = newrelic.DefaultListenSocket()
+			}
+		}
 	} else if err != nil && isWarning {
 		fmt.Fprintf(os.Stderr, "%v\n", err)
 	}
